@@ -20,7 +20,7 @@ type c18 struct{}
 func (c18) ID() string    { return "C18" }
 func (c18) Level() string { return "exploration" }
 func (c18) Rule() string {
-	return "env files assembled from the documented line grammar: 1-line files over key shape x separator x quoting x all value texts of <=3 (4 for one key/sep) tokens from a 15-token alphabet; 2- and 3-line files over a line-form alphabet; 4..6-line files over 6 forms; each with and without trailing newline and with 3 lookup functions; plus every string over a 13-symbol alphabet (12 bytes and the keyword export) up to 6 symbols (7 thorough) and every distance-1 byte edit of the repository's dotenv fixtures. Reference evaluator decides defined / must-error / outside; non-trivial = the reference defines the result; distinct = distinct (verdict, resulting map) signatures"
+	return "env files assembled from the documented line grammar: 1-line files over key shape x separator x quoting x all value texts of <=3 (4 for one key/sep) tokens from a 15-token alphabet; 2- and 3-line files over a line-form alphabet; 4..6-line files over 6 forms; each with and without trailing newline and with 4 lookup functions (none, one name, two names, a name defined as the empty string); plus every string over a 13-symbol alphabet (12 bytes and the keyword export) up to 6 symbols (7 thorough) and every distance-1 byte edit of the repository's dotenv fixtures. Reference evaluator decides defined / must-error / outside; non-trivial = the reference defines the result; distinct = distinct (verdict, resulting map) signatures"
 }
 func (c18) Assumptions() []string {
 	return []string{
@@ -38,6 +38,7 @@ var c18lookups = []c18lookup{
 	{"none", nil},
 	{"B", map[string]string{"B": "lb"}},
 	{"AB", map[string]string{"A": "la", "B": "lb"}},
+	{"A-empty", map[string]string{"A": "", "B": "lb"}}, // defined but empty is still defined: the lookup wins over earlier lines
 }
 
 func mapSig(m map[string]string) string {
